@@ -215,3 +215,6 @@ BOUNDS = ["quick: shapes of 1-5 rows, every single operation; F and FGF (mixed s
 OUTSIDE = ["sequences of more than 3 operations (each operation re-establishes the same invariant: the check is of the invariant after every step from every state reachable in <= 3 steps, not an inductive proof from an arbitrary state)",
            "scaffolds of more than 5 rows"]
 TRUSTED = ["CrossHair/z3", "Gap rows built without functools.cache", "contig names are unique per scaffold row (used by the oracle to align result rows with source rows)"]
+
+TECHNIQUE = ("symbolic execution of OverlapResult operations (CrossHair + z3): invariant asserted after every step of every operation sequence (length 1-3) with unbounded geometry")
+LEVEL_TEXT = ("All sequences of up to 2 (quick) / 3 (thorough) operations with symbolic arguments from every lookup result of each scaffold shape.")
